@@ -114,8 +114,8 @@ CLAIMED = {
             "notifications (hooks); sorted-reload metamorphic check for history independence; destruction must "
             "return every block.",
             "Trusted: canonical radix-tree model (src/common/model.hpp); allocation hooks report the requested "
-            "sizes. Concurrent-phase part (olc_db after drained concurrent phases) is covered only once the "
-            "scheduled harness exists.",
+            "sizes. The concurrent-phase part runs the scheduled olc_db harness (src/conc_olc, --prop C10) and "
+            "checks shape and accounting once every thread has quiesced and the drain has completed.",
             "model-based property testing (canonical tree model, allocator accounting, metamorphic reload)",
             "5 C10"),
     "C11": ("enc", "exploration",
